@@ -293,6 +293,9 @@ impl Report {
             g.unlisted,
             wall
         );
+        for (k, v) in &g.inconclusive_reasons {
+            println!("  inconclusive {} = {}", k, v);
+        }
         for (k, v) in &g.counters {
             println!("  counter {} = {}", k, v);
         }
